@@ -241,6 +241,27 @@ def run(R):
                     R.traces += 1
     finally:
         sys.setswitchinterval(old)
+    # ---- the same descriptions compiled one after the other, in several orders (no threads): what a module does is
+    # fixed by its description, not by what was compiled before it ----
+    for rounds in range(3 if quick else 30):
+        order = list(CONSTR) * 2
+        rnd.shuffle(order)
+        if rounds == 0:
+            order = ['constructors', 'rules-named-like-constructors', 'constructors', 'templates-named-like-constructors', 'constructors', 'calls', 'table', 'deep', 'deep-no-rule']
+        for i, cn in enumerate(order):
+            desc, texts = CONSTR[cn]
+            try:
+                g = Grammar(desc)
+                got = [outcome(g, t) for t in texts]
+            except Exception as e:              # noqa
+                got = ['construction raised ' + type(e).__name__ + ': ' + str(e)[:80]]
+            R.count('construction-history', (rounds, i, cn), nontrivial=True)
+            if got != cref[cn]:
+                R.counterexample('construction-history', 'module-depends-on-earlier-constructions',
+                                 {'grammar': desc, 'texts': texts, 'compiled_before': order[:i]}, cref[cn], got)
+                break
+        else:
+            R.traces += 1
     # ---- re-entrant parses from every kind of callback ----
     reent = {
         'apply': 'class W { v: /[a-z]+/ }\nInner = W\nstart = [W, "(" >> /[a-z]+/ |> `lambda s: Inner.parse(s)`, ")"]\n',
